@@ -299,10 +299,33 @@ def name_style_models():
     return out
 
 
+def namesake_alias_models():
+    """Two aliases of the same name in two namespaces, both referenced from one of them (own and imported), as struct fields, union
+    members and list items, in both orders, for every pair of differently-annotated target types and both alphabetical orders of the
+    namespaces."""
+    from mc.model import Model, Namespace, File, mkfield, mktag, mkstruct, mkunion
+    targets = [('int', P('Int64', ())), ('str', P('String', ())), ('list', L(P('String', ()), None, None)), ('bool', P('Boolean', ()))]
+    out = []
+    for here, far in (('na', 'nb'), ('nb', 'na')):
+        for (k1, t1) in targets:
+            for (k2, t2) in targets:
+                if k1 == k2:
+                    continue
+                for order in ('own-first', 'far-first'):
+                    own_f, far_f = mkfield('own', R(None, 'Id')), mkfield('far', R(far, 'Id'))
+                    fields = [own_f, far_f] if order == 'own-first' else [far_f, own_f]
+                    tags = [mktag('v0')] + ([mktag('own', R(None, 'Id')), mktag('far', R(far, 'Id'))] if order == 'own-first' else [mktag('far', R(far, 'Id')), mktag('own', R(None, 'Id'))])
+                    here_defs = (Alias('Id', t1, None, ()), mkstruct('Ss', fields=fields + [mkfield('many', L(R(far, 'Id'), None, None))]), mkunion('Uu', tags=tags))
+                    far_defs = (Alias('Id', t2, None, ()),)
+                    nss = {here: Namespace(here, (File(None, (far,), here_defs),)), far: Namespace(far, (File(None, (), far_defs),))}
+                    out.append((Model((nss['na'], nss['nb'])), ('namesake-aliases', here, k1, k2, order), 'namesake-aliases', ('names',), 1))
+    return out
+
+
 def run(tier, seed):
     r = explore.Run(PROP, tier, seed)
     states = c01.gather_states(tier, r, budget=500 if tier == 'quick' else None)
-    styled = name_style_models()
+    styled = name_style_models() + namesake_alias_models()
     r.bounds['name_style_models'] = len(styled)
     states = list(states) + styled
     for s, tr, pn, fl, d in states[len(states) // 2:len(states) // 2 + 1]:
